@@ -1,4 +1,6 @@
 import Nv.Proofs.C01Lists
+import Nv.Proofs.C01Fifo
+import Nv.Proofs.C01Refine
 /-!
 C01 — property theorems for `syncx/semap` (model `Nv.Model.C01`, proofs `Nv.Proofs.C01*`).
 
@@ -33,6 +35,17 @@ theorem sem_excl (c : Cfg) (hc : Proved c) (rw : Nat) (hrw : 1 ≤ rw) (s : Stat
   rcases kinv_view (reach_inv c hc rw hrw s hr k) with h | ⟨o, h, hok, _⟩
   · rw [h]; simp [wsum]
   · rw [h, holders_live, ← hok.cur_eq]; exact hok.cur_le
+
+/-- the token counter of the map's object is exactly what the callers inside hold: no token is ever leaked or
+    double-counted (this is the `cur` the hook reads) -/
+theorem sem_tokens_exact (c : Cfg) (hc : Proved c) (rw : Nat) (hrw : 1 ≤ rw) (s : State)
+    (hr : (M c rw).Reach s) (k : Key) (o : Sem) (ho : (s k).live = some o) :
+    o.cur = wsum (s k).holders ∧ o.holders = (s k).holders ∧ o.waiters = (s k).waiters := by
+  rcases kinv_view (reach_inv c hc rw hrw s hr k) with h | ⟨o', h, hok, _⟩
+  · rw [h] at ho; cases ho
+  · rw [h] at ho ⊢
+    cases ho
+    exact ⟨by rw [holders_live]; exact hok.cur_eq, by rw [holders_live], by rw [waiters_live]⟩
 
 /-- readers weigh 1, writers weigh rwRatio — holders and waiters alike -/
 theorem sem_weights (c : Cfg) (hc : Proved c) (rw : Nat) (hrw : 1 ≤ rw) (s : State)
@@ -142,6 +155,24 @@ theorem sem_release (c : Cfg) (hc : Proved c) (rw : Nat) (hrw : 1 ≤ rw) (s : S
   rw [hk]
   simp only [KS.step, hg]
   exact release_step_lists rw (s k) t (reach_inv c hc rw hrw s hr k) (by simpa [KS.enabled] using hen)
+
+/-- **admitted in arrival order** (ghost stamps: `MG` = `M` plus, per key, a counter and the stamp each caller got
+    when its acquire section ran; `sem_ghost_faithful` shows the ghost changes nothing). In every reachable state
+    the queue is sorted by arrival and nobody inside arrived later than somebody still waiting — so at no time
+    has a caller been admitted past an earlier arrival that is still blocked. -/
+theorem sem_arrival_order (c : Cfg) (hc : Proved c) (rw : Nat) (hrw : 1 ≤ rw) (g : GState)
+    (hr : (MG c rw).Reach g) (k : Key) :
+    (g.st k).waiters.Pairwise (fun a b => g.stamp k a.1 < g.stamp k b.1) ∧
+    (∀ h ∈ (g.st k).holders, ∀ w ∈ (g.st k).waiters, g.stamp k h.1 < g.stamp k w.1) :=
+  let h := reach_fifo c hc rw hrw g hr k
+  ⟨h.2.1, h.2.2⟩
+
+/-- every run of the map is the projection of a ghost run, and every ghost run projects to a run of the map -/
+theorem sem_ghost_faithful (c : Cfg) (rw : Nat) :
+    (∀ (as : List Act) (s : State), (M c rw).run init as = some s →
+      ∃ g, (MG c rw).run ginit as = some g ∧ g.st = s) ∧
+    (∀ g, (MG c rw).Reach g → (M c rw).Reach g.st) :=
+  ⟨fun as s h => ghost_faithful c rw as ginit s h, ghost_proj_reach c rw⟩
 
 /-- **a cancelled acquire holds nothing**: a waiting caller whose context ends leaves the queue, is not a
     holder, and a prefix of the remaining queue is admitted (non-empty only when it was the head) -/
@@ -259,6 +290,21 @@ theorem sem_no_residue (c : Cfg) (hc : Proved c) (rw : Nat) (hrw : 1 ≤ rw) (s 
 theorem sem_not_doomed (rw : Nat) (hrw : 1 ≤ rw) (wr : Bool) : ¬ weight rw wr > rw := by
   have := (weight_bounds rw hrw wr).2; omega
 
+/-! ### refinement to the token-free reader/writer lock (`Nv/Spec/C01.lean`) -/
+
+/-- **refinement**: the model of the code and the reference FIFO reader/writer lock `S rw` accept exactly the same
+    action sequences (`Agree`: both refuse, or both accept), and after each accepted sequence every key has the
+    same callers inside and the same queue (`Rel`: holders = inside, waiters = queue, weight = 1 / rwRatio) -/
+theorem sem_refines_rwlock (c : Cfg) (hc : Proved c) (rw : Nat) (hrw : 1 ≤ rw) (as : List Act) :
+    Agree rw ((M c rw).run init as) ((S rw).run (fun _ => RW.init) as) :=
+  run_agree c hc rw hrw as init _ LTS.Reach.init (fun _ => Rel.init rw)
+
+/-- the reference lock excludes by construction: inside is one writer alone, or only readers, at most rwRatio -/
+theorem spec_rwlock_excl (rw : Nat) (sp : SState) (hr : (S rw).Reach sp) (k : Key) :
+    (∃ t, (sp k).inside = [(t, true)]) ∨
+      ((sp k).inside.all (fun c => !c.2) = true ∧ (sp k).inside.length ≤ rw) :=
+  spec_excl rw sp hr k
+
 /-! ### the sharded maps (any shard array, any routing function) -/
 
 /-- a sharded map behaves as the single map that reads every key from the shard it routes to -/
@@ -345,6 +391,17 @@ example : ((M ⟨.emptyAndIdle⟩ 2).run init [.acquire 1 0 false, .acquire 2 0 
 /-- the repaired guard on the F01 script: the writer queues behind the remaining reader -/
 example : ((M ⟨.emptyAndIdle⟩ 3).run init [.acquire 1 7 false, .acquire 2 7 false, .release 1 7, .acquire 9 7 true]).map
     (fun s => ((s 7).holders, (s 7).waiters)) = some ([(2, 1)], [(9, 3)]) := by decide
+
+/-- ghost stamps on the same trace: arrivals 1,2,3,4 get stamps 0,1,2,3; the queue [3,4] is in stamp order -/
+example : ((MG ⟨.emptyAndIdle⟩ 3).run ginit [.acquire 1 0 false, .acquire 2 0 false, .acquire 3 0 true,
+      .acquire 4 0 false]).map
+    (fun g => ((g.st 0).waiters, [g.stamp 0 1, g.stamp 0 2, g.stamp 0 3, g.stamp 0 4], g.next 0)) =
+    some ([(3, 3), (4, 1)], [0, 1, 2, 3], 4) := by decide
+
+/-- the reference lock on the same trace -/
+example : ((S 3).run (fun _ => RW.init) [.acquire 1 0 false, .acquire 2 0 false, .acquire 3 0 true,
+      .acquire 4 0 false, .cancel 3 0]).map
+    (fun sp => ((sp 0).inside, (sp 0).queue)) = some ([(1, false), (2, false), (4, false)], []) := by decide
 
 /-- a sharded run (3 shards by residue): key 4 lives in shard 1 only -/
 example : ((MW ⟨.emptyAndIdle⟩ 2 (· % 3)).run winit [.acquire 1 4 true, .acquire 2 4 false, .acquire 3 5 false]).map
